@@ -92,7 +92,7 @@ impl Check for C09 {
         CheckMeta {
             property: "C09",
             level: "fault_enumeration",
-            rule: "every history over 3 real networks of {dial i->j, disconnect i-/->j, black-hole a link both ways for 1 s or idle timeout + 1 s, black-hole one direction for idle timeout + 1 s, shut down and restart a node with the same key} up to the depth (idle timeout 3 s, keep-alive 1 s); after every step and idle timeout + 1 s without faults: i lists j iff j lists i, and an RPC to every listed peer succeeds; disconnect is immediate with LostPeer(Requested) queued before it returns; distinct = distinct (op outcomes, final listing sizes)".into(),
+            rule: "every history over 3 real networks of {dial i->j, disconnect i-/->j, black-hole a link both ways for 1 s or idle timeout + 1 s, black-hole one direction for idle timeout + 1 s, shut down and restart a node with the same key, a request whose application handler panics} up to the depth (idle timeout 3 s, keep-alive 1 s); after every step and idle timeout + 1 s without faults: i lists j iff j lists i, and an RPC to every listed peer succeeds; disconnect is immediate with LostPeer(Requested) queued before it returns; distinct = distinct (op outcomes, final listing sizes)".into(),
             assumptions: vec!["quinn's idle timer and keep-alives behave as configured (executed, trusted)".into(), "three nodes".into(), "a supplementary FREE-RUNNING pass (2 scenarios on a multi-thread runtime in real time: a handler inside a 4 s blocking section when its connection ends must not delay the report of the loss beyond 2.5 s) samples the one behaviour the single-thread simulation cannot host; counted under free_running_trials, not part of the exhaustive claim".into()],
             exhaustive: true,
         }
